@@ -3,6 +3,7 @@
 // elementary matrices and two matrices with pairwise different entries.  The 4x4
 // determinant is a multilinear form of degree 4, every adjugate entry one of degree 3:
 // the family determines every coefficient (index and sign) of the Laplace expansion.
+// Thorough tier in addition: all 2^16 dense matrices over {0,1}.
 #include "C14_matrix.hpp"
 
 namespace c14
@@ -26,6 +27,18 @@ void register_m4()
         part.push_back(all[i]);
       auto const ops = make_ops(part);
       shape_unary_all<4, 4>(ops, {-2, -1, 3});
+      square_unary_all<4>(ops);
+    });
+  for (unsigned p = 0; p < 16; ++p)
+    vrt::shard("m4/unary_dense01/" + std::to_string(p), [p] {
+      if (!vrt::thorough())
+        return;
+      auto const all = all_over<4, 4>({0, 1});
+      std::vector<rmat<4, 4>> part;
+      for (std::size_t i = p; i < all.size(); i += 16)
+        part.push_back(all[i]);
+      auto const ops = make_ops(part);
+      shape_unary_all<4, 4>(ops, {-3});
       square_unary_all<4>(ops);
     });
 }
